@@ -33,12 +33,25 @@ def volumes(tier):
 def run(rep, tier, seed):
     rng = vlib.Rng(seed)
     scripts = []; metas = []
-    for (label, bps, ts, bpc) in volumes(tier):
+    vols = list(volumes(tier))
+    # the FAT32 cluster limit (0x0FFFFFF4 clusters) as another formatter leaves it: the entries of the clusters numbered
+    # 0x0FFFFFF0 and above are free (this library's format marks them bad); they are ordinary data clusters
+    foreign_pokes = {}
+    lim = vlib.sectors_for_clusters(512, 4096, 0x0FFFFFF4, 0x0FFFFFF4 * 8 + 2 * ((0x0FFFFFF4 + 2) * 4 // 512) - 32, span=400)
+    if lim is not None:
+        import fatimg
+        o = vlib.exec_raw(["fmtbs"], "512 %d 4096 - - - - - -\n" % lim[0]).split("\n")[0].split(" ")
+        gm = fatimg.Geom(bytes.fromhex(o[-1]))
+        fbytes = gm.spf * gm.bps
+        foreign_pokes["1TiB-limit-foreign"] = ["poke %d %s" % (gm.fat_off + k * fbytes + 4 * 0x0FFFFFF0, "00" * (4 * 6)) for k in range(gm.fats)] + \
+                                              ["poke %d %s" % (512 + 488, (0x0FFFFFF4 - 1).to_bytes(4, "little").hex())]
+        vols.append(("1TiB-limit-foreign", 512, lim[0], 4096))
+    for (label, bps, ts, bpc) in vols:
         vol_bytes = bps * ts
-        for delta in (["0", "-1", "1", "-2", "none", "2"] if tier == "thorough" or label in ("2TiB-512", "4GiB+") or label.startswith("exactfit") else ["0", "-1", "1"]):
+        for delta in (["0", "-1", "1", "-2", "none", "2"] if tier == "thorough" or label in ("2TiB-512", "4GiB+", "1TiB-limit-foreign") or label.startswith("exactfit") else ["0", "-1", "1"]):
             n1 = rng.range(2, 4)
             s = ["dev %d 0" % (vol_bytes + 65536), "wlog 0",
-                 "format %d %d %s - - - - - -" % (bps, ts, bpc if bpc else "-"), "pokehint %s" % delta, "pages", "wlog 1", "logcalls 1",
+                 "format %d %d %s - - - - - -" % (bps, ts, bpc if bpc else "-")] + foreign_pokes.get(label, []) + ["pokehint %s" % delta, "pages", "wlog 1", "logcalls 1",
                  "mount 1 0 lossy", "stats",
                  "create_file 0 %s 1" % hexs("big volume file.bin"), "write_pat 1 %d 5" % (n1 * 40000 + 77), "flush 1", "extents 1",
                  "seek 1 start 0", "read_all 1 400000",
@@ -57,8 +70,10 @@ def run(rep, tier, seed):
         if jd.ops[2].kind != "ok":
             rep.violation("[C20 %s] format of a %d-sector volume failed: %s %s" % (label, ts, jd.ops[2].kind, jd.ops[2].payload), {"script": jd.script[:3]})
             continue
-        hint, clusters, data_off = [int(x) for x in jd.ops[3].payload.split(" ")]
-        cs = int(jd.ops[7].payload.split(" ")[1])
+        iph = next(i for i, l in enumerate(jd.script) if l.startswith("pokehint"))
+        ist = next(i for i, l in enumerate(jd.script) if l.startswith("mount "))      # payload: FAT bits, cluster size
+        hint, clusters, data_off = [int(x) for x in jd.ops[iph].payload.split(" ")]
+        cs = int(jd.ops[ist].payload.split(" ")[1])
         last = clusters + 1
         # 1. nothing is addressed beyond the declared end (reads, writes, seeks)
         for oi, o in enumerate(jd.ops):
